@@ -6,11 +6,12 @@ from fv import cppharness, managed_cpp
 
 def cases(tier, seed):
     from fv.props import c10
-    combos = [0, 3] if tier == "quick" else [0, 1, 2, 3]
+    # all four control x calibration instantiations: the header has one separately written stepping branch per combination
     hs = c10.HS_QUICK if tier == "quick" else c10.HS_ALL
     t0s = [0.0, 1000.0] if tier == "quick" else c10.T0_ALL
-    for combo in combos:
-        yield {"runtime": "cpp", "combo": combo, "hs": hs, "t0s": t0s, "full_triples": tier == "thorough"}
+    for combo in [0, 1, 2, 3]:
+        yield {"runtime": "cpp", "combo": combo, "hs": hs if (tier != "quick" or combo in (0, 3)) else hs[:2],
+               "t0s": t0s if (tier != "quick" or combo in (0, 3)) else t0s[:1], "full_triples": tier == "thorough"}
 
 
 def eval_case(case):
